@@ -44,6 +44,11 @@ var kinds = []Kind{
 		Body: []string{"cpy r3, r1", "add r3, r1", "cpy r0, r3", "inc r0"},
 		Eval: func(in []uint8) []uint8 { return []uint8{2*in[0] + 1} },
 	},
+	{ // constant generator: NO input, one output (5) in r0 — placed first on a CP it is the first code of the loop
+		Name: "k5", ResIn: nil, ResOut: []string{"r0"},
+		Body: []string{"rset r0, 5"},
+		Eval: func(in []uint8) []uint8 { return []uint8{5} },
+	},
 }
 
 // ---- graphs --------------------------------------------------------------------------------------------------
